@@ -1,7 +1,7 @@
 //! C13 — instructions the selected device lacks are rejected; all others are unaffected.
 //!
 //! Complete in both tiers: every device of the table x every instruction form of the reference
-//! ISA x lowest/highest legal operand tuple (thorough: + 64 random tuples). Oracle: flag→forms map
+//! ISA x lowest/highest legal operand tuple (thorough: + 256 random tuples). Oracle: flag→forms map
 //! transcribed from the DisabledOptions documentation, flags read from DEVICES at run time; an
 //! allowed form must assemble to the reference (no-device) encoding, lds/sts taking the one-word
 //! form on reduced cores.
@@ -158,7 +158,7 @@ pub fn run(ctx: &Ctx) -> i32 {
     }
     let table = devices::table();
     let forms = isa::forms();
-    let extra = ctx.tier.pick(0usize, 64usize);
+    let extra = ctx.tier.pick(0usize, 256usize);
     let mut work: Vec<(String, usize, Vec<i64>)> = vec![];
     let mut rng = Rng::for_case(ctx.seed, 0xC13, 0);
     let mut pairs = 0u64;
@@ -193,11 +193,11 @@ pub fn run(ctx: &Ctx) -> i32 {
         let (name, fi, t) = &work[i as usize];
         check(ctx, name, &forms[*fi], t);
     });
-    sequences(ctx, ctx.tier.pick(3, 40));
+    sequences(ctx, ctx.tier.pick(3, 200));
     ctx.exhaustive.store(true, std::sync::atomic::Ordering::Relaxed);
     fw::finish(
         ctx,
-        "every device of DEVICES x every instruction form of the reference ISA (the lds/sts form of the device's core) x lowest and highest legal operand tuple (thorough: + 64 random tuples); forbidden iff a flag of the device forbids the form per the DisabledOptions documentation; plus per device 3 (thorough 40) whole programs of 10-40 allowed instructions (must build to the concatenated encodings) and, for every forbidden form, a program where it follows 1-6 allowed instructions incl. allowed forms of the same mnemonic (must fail); distinct_nontrivial = distinct (device, form) pairs",
+        "every device of DEVICES x every instruction form of the reference ISA (the lds/sts form of the device's core) x lowest and highest legal operand tuple (thorough: + 256 random tuples); forbidden iff a flag of the device forbids the form per the DisabledOptions documentation; plus per device 3 (thorough 200) whole programs of 10-40 allowed instructions (must build to the concatenated encodings) and, for every forbidden form, a program where it follows 1-6 allowed instructions incl. allowed forms of the same mnemonic (must fail); distinct_nontrivial = distinct (device, form) pairs",
         &["flag→forms map transcribed from the doc comments of DisabledOptions (refmodel/devices.rs); flags read from the DEVICES table at run time, as the statement says"],
     )
 }
